@@ -84,6 +84,9 @@ def quiet_logging():
     if not _quiet:
         sf_logger.setLevel(logging.CRITICAL + 10)
         logging.getLogger("asyncio").setLevel(logging.CRITICAL + 10)
+        # executions are cut at the horizon: coroutines still pending there are closed by VLoop.dispose()
+        import warnings
+        warnings.filterwarnings("ignore", message="coroutine .* was never awaited", category=RuntimeWarning)
         _quiet = True
 
 
